@@ -234,8 +234,17 @@ def unpriv(res):
     cpu = env.cpu
     regs = cpu.registers
     words = [w for w in isa.harvest_words() if w[3].startswith(UNPRIV)]
-    for ap, load_ok, store_ok in ((0b001, False, False), (0b010, True, False), (0b011, True, True), (0b110, True, False)):
-        regs.dracrs[1].ap = ap
+    for ap, load_ok, store_ok in ((0b001, False, False), (0b010, True, False), (0b011, True, True), (0b110, True, False),
+                                  (None, False, False)):
+        if ap is None:
+            # no region at all, SCTLR.BR = 1: the background region serves privileged accesses only, so the
+            # unprivileged forms take a Background fault also when executed in a privileged mode
+            regs.drsrs[0].value = 0
+            regs.drsrs[1].value = 0
+            regs.sctlr.value |= 1 << 17
+            ap = 0b1000
+        else:
+            regs.dracrs[1].ap = ap
         env.bases.clear()
         for mode in ("svc", "fiq", "irq", "abt", "und", "sys", "mon"):
           for off in (0, 1, 2, 3):
